@@ -98,16 +98,22 @@ CONTRACTS = {
 
  SPA + 'generate_instances': dict(
     params={'args': ('obj', 'GenArgs')}, self_fields={}, theory=['listsets'],
+    defs={'file_ok': (['w', 'u'], 'file_named_ok(w) and file_index(w) == u and file_has_text(w) and len(text_toks(file_text(w), 0)) == 3 and value(text_toks(file_text(w), 0)[0]) == args.n1 and value(text_toks(file_text(w), 0)[1]) == args.n2 and value(text_toks(file_text(w), 0)[2]) == args.n3 and text_len(file_text(w)) >= 2 + args.n1 + args.n2 + args.n3')},
     requires=ARGS_OK + ARGS_SPA + ['args.upperquotas >= args.n2'],
-    loops={0: dict(invariant=[])},
+    loops={0: dict(invariant=[('one-file-written-per-instance-so-far', 'files_written() == old(files_written()) + _k'),
+                              ('files-so-far-are-numbered-in-order-and-hold-an-instance-text', 'forall(u, 0, _k, file_ok(old(files_written()) + u, u))')])},
     use_lemmas={'after_call:create_instance_info': [
         ('C08/spread-monotone', {'n': 'args.n2', 'a': 'args.lowerquotas', 'b': 'args.upperquotas'}),
         ('C09/quota-order', {'n': 'args.n3', 'llq': 'args.lecturerlowerquotas', 'lt': 'args.lecturertargets', 'luq': 'args.lecturerupperquotas'})]},
-    ensures=[]),
+    ensures=[('exactly-the-requested-number-of-files', 'files_written() == old(files_written()) + args.numberinstances'),
+             ('files-are-named-0-1-2-in-the-output-directory-and-each-holds-an-instance-text-with-the-requested-counts', 'forall(u, 0, args.numberinstances, file_ok(old(files_written()) + u, u))')]),
  HSH + 'generate_instances': dict(
     params={'args': ('obj', 'GenArgs')}, self_fields={}, theory=['listsets'],
+    defs={'file_ok': (['w', 'u'], 'file_named_ok(w) and file_index(w) == u and file_has_text(w) and len(text_toks(file_text(w), 0)) == 2 and value(text_toks(file_text(w), 0)[0]) == args.n1 and value(text_toks(file_text(w), 0)[1]) == args.n2 and text_len(file_text(w)) >= 2 + args.n1 + args.n2')},
     requires=ARGS_OK + ['args.upperquotas >= args.n2'],
-    loops={0: dict(invariant=[])},
+    loops={0: dict(invariant=[('one-file-written-per-instance-so-far', 'files_written() == old(files_written()) + _k'),
+                              ('files-so-far-are-numbered-in-order-and-hold-an-instance-text', 'forall(u, 0, _k, file_ok(old(files_written()) + u, u))')])},
     use_lemmas={'after_call:create_instance_info': [('C08/spread-monotone', {'n': 'args.n2', 'a': 'args.lowerquotas', 'b': 'args.upperquotas'})]},
-    ensures=[]),
+    ensures=[('exactly-the-requested-number-of-files', 'files_written() == old(files_written()) + args.numberinstances'),
+             ('files-are-named-0-1-2-in-the-output-directory-and-each-holds-an-instance-text-with-the-requested-counts', 'forall(u, 0, args.numberinstances, file_ok(old(files_written()) + u, u))')]),
 }
